@@ -6,12 +6,14 @@ from vf.props import apigen as ag
 PN = {0: "znx_small_single_product", 1: "svp_prepare+svp_apply_dft+idft", 2: "vmp_prepare+vmp_apply_dft+idft_tmp_a", 3: "vmp_prepare+vec_znx_dft+vmp_apply_dft_to_dft+idft_tmp_a"}
 
 
-def prod_ob(tdir, path, nn, avx, rsz=1, asz=1, asl=None, nrows=1, ncols=1, tmpa=False, timeout=None, tag="", toffs=0, palias=0):
+def prod_ob(tdir, path, nn, avx, rsz=1, asz=1, asl=None, nrows=1, ncols=1, tmpa=False, timeout=None, tag="", toffs=0, palias=0, idft_inplace=False):
     d = {"PATH": path, "NN": nn, "MM": nn // 2, "AVX": avx, "RSZ": rsz, "ASZ": asz, "ASL": asl if asl is not None else nn, "NROWS": nrows, "NCOLS": ncols}
     if toffs:
         d["TOFFS"] = toffs
     if palias:
         d["PALIAS"] = palias
+    if idft_inplace:
+        d["IDFT_INPLACE"] = None
     if tmpa:
         d["TMPA"] = None
     name = "%s%s/N=%d/avx=%d" % (tag, PN[path], nn, avx)
@@ -27,6 +29,8 @@ def prod_ob(tdir, path, nn, avx, rsz=1, asz=1, asl=None, nrows=1, ncols=1, tmpa=
         name += "/scratch+%dB" % (8 * toffs)
     if palias:
         name += "/res==%s" % ("a" if palias == 1 else "b")
+    if idft_inplace:
+        name += "/idft-inplace"
     import struct
     na = (1 if path == 0 else asz) * nn
     nb = nn if path <= 1 else nrows * ncols * nn
